@@ -110,6 +110,13 @@ def judge_group(comp, results):
         return out
     wr = ok[ref_st]["w"]
     Fr = RC.objective(prob, wr)
+    for st, r in results.items():          # same budget, same algorithm: a representation that does not get there gives another answer
+        if r["status"] == "ok" and st not in ok and np.all(np.isfinite(r["w"])) and r["w"].shape == wr.shape:
+            F = RC.objective(prob, r["w"])
+            if not np.isfinite(F) or F - Fr > 1e-6 * (1 + abs(Fr)):
+                out.append(("representation_fails_to_converge", f"{st} vs {ref_st}", dict(objective_excess=float(F - Fr), stop=r["stop_crit"]), "converges like the others"))
+        elif r["status"] == "ok" and st not in ok and not np.all(np.isfinite(r["w"])):
+            out.append(("representation_fails_to_converge", f"{st} vs {ref_st}", "non-finite coefficients", "converges like the others"))
     for st, r in ok.items():
         if st == ref_st:
             continue
@@ -134,8 +141,11 @@ def comps_for(task, tier):
     s, dn, pk = task["solver"], task["datafit"], task["pen"]
     kind = R.KIND[dn]
     for xid, X in [("tall6x3", A.G_TALL), ("wide-zeromid", A.Z()["wide3x5-zeromid"]), ("sq4x4", A.G_SQ)] + ([("dup", A.K()["dup"])] if tier != "quick" else []):
-        y = R.targets(kind, X, tier)[0][1]
-        for dspec in R.datafit_specs(dn, X, tier)[:2]:
+        ys = [R.targets(kind, X, tier)[0][1]]
+        if kind == "multi":                     # a task that stays exactly zero while the others move
+            ys.append(np.column_stack([np.zeros(X.shape[0]), ys[0][:, 0]]))
+        dspecs = R.datafit_specs(dn, X, "thorough")                 # every group layout, non-contiguous ones included
+        for y, dspec in [(y_, d_) for y_ in ys for d_ in dspecs]:
             if pk.startswith("WeightedGroupL2") and (dspec is None or "grp_ptr" not in dspec):
                 continue
             Xeff = (X * y[:, None]).T if dn == "QuadraticSVC" else X
@@ -170,7 +180,7 @@ def est_spec(name, p):
     if name == "MCPRegression":
         kw.update(gamma=3.0)
     if name == "GroupLasso":
-        kw.update(groups=1)
+        kw.update(groups={3: [[2, 0], [1]], 4: [[3, 0], [2, 1]], 5: [[4, 0], [3, 1], [2]]}[p], weights=[1.0, 2.0, 0.5][:2 if p < 5 else 3])
     if name == "SparseLogisticRegression":
         kw.update(alpha=0.02)
     if name == "LinearSVC":
@@ -198,6 +208,9 @@ def exec_est_group(case):
                 if cont in ("float32", "csc32"):     # a tolerance below single precision cannot be met: compare at 1e-5
                     sp_ = dict(spec, kw=dict(spec["kw"], tol=1e-5))
                 est = estim.make(sp_)
+                from mc import build
+                from mc.core import derive_seed
+                build.seed_numba(derive_seed("c10est", spec["name"], case["xid"]))       # F2: same power-method stream for every container
                 Xc = estim.container(X, cont)
                 yc = y.astype(np.float32) if cont in ("float32", "csc32") else y
                 est.fit(Xc, yc if cont != "list" else y.tolist())
